@@ -89,6 +89,7 @@ class TriggerHandler:
         self.__old_thread_trace = None
         self.__old_sys_trace = None
         self.__tracing = False
+        self.__stopped = False
         self._push_service = push_service
         self._tp_config: List[Trigger] = []
         self._config = config
@@ -117,6 +118,9 @@ class TriggerHandler:
 
         :param new_config: the new config to use
         """
+        if self.__stopped:
+            # once we are shutdown we must not take any further actions
+            return
         self._tp_config = new_config
 
     def trace_call(self, frame: FrameType, event: str, arg):
@@ -233,6 +237,9 @@ class TriggerHandler:
 
         Reset the settrace to the previous values.
         """
+        # threads that are already running keep their trace function, so remove the config to stop any further actions
+        self.__stopped = True
+        self._tp_config = []
         if not self.__tracing:
             # we did not install our trace function, so there is nothing to restore
             return
